@@ -304,11 +304,11 @@ func init() {
 			// position of %w: 0 = end ("lit: %w"), 1 = middle, 2 = start
 			switch n.N[0] {
 			case 0:
-				return errors.Newf(escFmt(n.S[0].V)+": %w", k[0])
+				return errors.Newf(escFmt(n.S[0].V)+" "+escFmt(n.S[1].V)+": %w", k[0])
 			case 1:
 				return errors.Newf(escFmt(n.S[0].V)+" %w "+escFmt(n.S[1].V), k[0])
 			default:
-				return errors.Newf("%w "+escFmt(n.S[1].V), k[0])
+				return errors.Newf("%w "+escFmt(n.S[0].V)+" "+escFmt(n.S[1].V), k[0])
 			}
 		}})
 	def(WStack, KindInfo{Name: "errors.WithStack", Arity: Wrap, Groups: GLib | GStack,
